@@ -1,6 +1,7 @@
 import ScrapliProps.C12Lemmas
 import ScrapliModel.Gen.FlowGraph
 import ScrapliModel.Gen.FlowCert
+import ScrapliProps.C12Interact
 /-
   C12 — secrets never appear in logs, repr or error messages.
   Property theorems only (helper lemmas and the generic soundness / completeness of `reachFrom`:
@@ -12,6 +13,22 @@ import ScrapliModel.Gen.FlowCert
   member of an interact event) is false.
   Claim: proof over the extracted graph.  PARTIAL: that the graph over-approximates the data flow
   of the Python code rests on the name-based extraction, validated dynamically by tools/props/c12.py.
+
+  SCOPE, stated once and meant for every theorem below: the graph contains EXPLICIT data flows INSIDE
+  the package only.  Not in the graph, by construction of the extractor (design/C12.md "Handles"):
+    (P1) flows through the device — a secret that scrapli types and the device sends back (echo) re-enters
+         through `transport.read()` as device output and is then logged by `Channel.read` (`read: %r`),
+         stored in the channel log and in `Response.result`.  `no_secret_path` therefore does NOT exclude
+         that leak; it held on the tree that had it (finding C12-F2, fixed by c887324).  What excludes it is
+         (a) `hidden_input_typed_only_at_its_prompt` below (model of `send_inputs_interact`: nothing is
+         typed after the interactive session ended, so a hidden input is typed only after its own expected
+         prompt) together with (b) the ENVIRONMENT ASSUMPTION that the device does not echo at that
+         (password) prompt, and the scenario runs of the check (devices that echo everywhere else);
+    (P2) flows through third-party objects (asyncssh / paramiko / pty handles) and the text of third-party
+         exceptions caught by handlers naming specific classes (list: tools/gen/c12_expected.json);
+    (P3) implicit flows (which branch was taken).
+  There is no semantics of Python underneath: "no path in the graph" is tied to "no secret in a record"
+  only by the dynamic validation (oracle + tie + interior check) of tools/props/c12.py.
 -/
 namespace Scrapli.Flow
 open Scrapli.Gen.Flow Scrapli.Gen.FlowCert
@@ -33,8 +50,10 @@ theorem no_sink_reached : sinksReachedFrom graph graph.sources = [] :=
 theorem no_secret_reaches_sink : ∀ src ∈ graph.sources, sinksReached graph src = [] :=
   sinksReached_nil_of_all graph graph_wf no_sink_reached
 
-/-- **C12, lifted by `reach_sound`**: in the extracted graph there is NO path from a secret source
-    to a log call, an exception message or a driver repr/str that avoids the sanitisers -/
+/-- **C12, lifted by `reach_sound`** — a statement about the EXTRACTED GRAPH (explicit, intra-package
+    data flow; premises P1–P3 of the header: NOT about flows through the device, third-party objects
+    or implicit flows): there is no path from a secret source to a log call, an exception message or
+    a driver repr/str that avoids the sanitisers -/
 theorem no_secret_path : ∀ s ∈ graph.sources, ∀ t ∈ graph.sinks, ¬ Path graph s t :=
   no_path_of_sinksReachedFrom_nil graph graph_wf graph.sources no_sink_reached
 
@@ -67,10 +86,16 @@ theorem no_secret_path_advisory : ∀ s ∈ graph.sources, ∀ t ∈ advisorySin
     | step _ hc hsan ih => exact Path.step ih hc hsan
   exact no_path_of_sinksReachedFrom_nil advisoryGraph hwf advisoryGraph.sources h s hs t ht hp'
 
-/-- **C12, the two flag-guarded logging sites** (hand model of `BaseChannel.write` and
-    `send_inputs_interact`, instantiated with the constants generated from the source): when the
-    input is marked secret, what is handed to `logging` does not depend on the input at all, and it
-    is the constant REDACTED text -/
+/-- **C12, the two flag-guarded logging sites** — DEFINITIONAL over a HAND MODEL (`writeLog`,
+    `interactLogs` in ScrapliModel/Flow.lean return the constant record when the flag is true; this is
+    not non-interference of the Python code).  Its content is (i) the AST shape check of the translator
+    (the modelled statements exist in exactly this form, constants generated from the source) and
+    (ii) check 4 of props/c12.py (real `(record.msg, record.args)` = the model's, every run).  The
+    model's `hidden : Bool` is the truth value of the flag; the code's other guard
+    `hidden_input is not True` (a truthy non-`True` flag hands the input to `_read_until_input`) is not
+    in this model — the flow graph keeps that flow (a guard that is not exactly the flag cuts nothing).
+    Statement: with the mark set, what is handed to `logging` is the same for any two inputs and is the
+    constant REDACTED record -/
 theorem redacted_logs_constant (a b resp hiddenText : String) :
     writeLog writeRedactedMsg writePlainFmt a true = writeLog writeRedactedMsg writePlainFmt b true ∧
     interactLogs redactedToken interactFmt writeRedactedMsg writePlainFmt a resp true hiddenText =
@@ -90,6 +115,51 @@ theorem unredacted_logs_input (a resp hiddenText : String) :
     ∃ r ∈ interactLogs redactedToken interactFmt writeRedactedMsg writePlainFmt a resp false hiddenText,
       a ∈ r.args := by
   refine ⟨by simp [writeLog], ⟨_, List.mem_cons_self, by simp⟩⟩
+
+/-- the node numbers mean something: the sources are exactly the variables / attributes of the four
+    secret roles (each present), the sinks are exactly log-call, raise and driver-repr sinks (each kind
+    present; the translator additionally refuses to run unless `BaseDriver.__repr__` and `__str__` are
+    among the repr sinks) -/
+theorem sources_and_sinks_by_role :
+    sourcesPW ≠ [] ∧ sourcesPP ≠ [] ∧ sourcesSEC ≠ [] ∧ sourcesHID ≠ [] ∧
+    sinksLog ≠ [] ∧ sinksRaise ≠ [] ∧ sinksRepr ≠ [] ∧
+    (∀ s, s ∈ graph.sources ↔ s ∈ sourcesPW ++ sourcesPP ++ sourcesSEC ++ sourcesHID) ∧
+    (∀ t, t ∈ graph.sinks ↔ t ∈ sinksLog ++ sinksRaise ++ sinksRepr) := by
+  have h1 : (graph.sources.all (fun s => (sourcesPW ++ sourcesPP ++ sourcesSEC ++ sourcesHID).contains s) &&
+      (sourcesPW ++ sourcesPP ++ sourcesSEC ++ sourcesHID).all (fun s => graph.sources.contains s)) = true := by
+    decide +kernel
+  have h2 : (graph.sinks.all (fun s => (sinksLog ++ sinksRaise ++ sinksRepr).contains s) &&
+      (sinksLog ++ sinksRaise ++ sinksRepr).all (fun s => graph.sinks.contains s)) = true := by
+    decide +kernel
+  simp only [Bool.and_eq_true, List.all_eq_true, List.contains_iff_mem] at h1 h2
+  refine ⟨by decide +kernel, by decide +kernel, by decide +kernel, by decide +kernel,
+    by decide +kernel, by decide +kernel, by decide +kernel,
+    fun s => ⟨h1.1 s, h1.2 s⟩, fun t => ⟨h2.1 t, h2.2 t⟩⟩
+
+/-- per role: e.g. nothing named `auth_secondary` reaches a sink in the graph -/
+theorem no_secret_path_per_role :
+    (∀ s ∈ sourcesPW, ∀ t ∈ graph.sinks, ¬ Path graph s t) ∧ (∀ s ∈ sourcesPP, ∀ t ∈ graph.sinks, ¬ Path graph s t) ∧
+    (∀ s ∈ sourcesSEC, ∀ t ∈ graph.sinks, ¬ Path graph s t) ∧ (∀ s ∈ sourcesHID, ∀ t ∈ graph.sinks, ¬ Path graph s t) := by
+  obtain ⟨_, _, _, _, _, _, _, hs, _⟩ := sources_and_sinks_by_role
+  refine ⟨?_, ?_, ?_, ?_⟩ <;> intro s h <;> apply no_secret_path s <;> rw [hs] <;> simp [h]
+
+/-- **premise P1, the part that is provable** (corollary of C01's `interact_exact`, model of
+    `send_inputs_interact` after fix c887324, every segmentation): if an exchange before event `ev`
+    ended on an interaction-complete pattern rather than on its own expected response, the inputs
+    written during the whole call are those of a prefix of the earlier events — `ev`'s (hidden) input is
+    not typed.  So a hidden input is typed only directly after every earlier event got its expected
+    (password) prompt.  REMAINING ENVIRONMENT ASSUMPTION: the device does not echo at that prompt. -/
+theorem hidden_input_typed_only_at_its_prompt {cfg : Chan.Cfg} {complete : List Bytes}
+    (hstrict : cfg.rough = false) (hret : cfg.ret = [Chan.NL]) (hc : complete ≠ [])
+    (pre : List (Chan.Ev × Chan.Step)) (ev : Chan.Ev) (st : Chan.Step)
+    (post : List (Chan.Ev × Chan.Step)) (extra : List Chan.Step)
+    (hg : ∀ p ∈ pre ++ (ev, st) :: post, ∃ Pr Pc, Chan.GoodStep cfg complete Pr Pc p.1 p.2)
+    (w : Chan.Wire) (hres : ∀ x ∈ w.avail, Chan.isHws x = true) (hheld : w.held = [])
+    (hearly : ∃ e ∈ pre, e.2.isResp = false) :
+    ∃ res w' rest, Chan.sendInputsInteract cfg Chan.scriptDev ((pre ++ (ev, st) :: post).map (·.1)) complete
+        (w, (pre ++ (ev, st) :: post).map (·.2) ++ extra) = some (res, (w', rest)) ∧
+      ∃ done, done <+: pre ∧ w'.writes = w.writes ++ (done.map (fun p => [p.1.1, [Chan.NL]])).flatten :=
+  Chan.input_not_typed_after_session_end hstrict hret hc pre ev st post extra hg w hres hheld hearly
 
 /-! Non-vacuity of the generic theorems on a concrete small graph:
     0 → 1 → 2(sink) and 0 → 3(sanitiser) → 4(sink): the query reports 2 and not 4. -/
